@@ -7,6 +7,17 @@ DEFAULT_REWARDS = (1.0, 0.0, 0.0)  # documented defaults: safe square, mine, inv
 INJ_PROPS = ["C01", "C03", "C04", "C05", "C07", "C09", "C12"]
 
 
+def _budget_done_fn(budget):
+    """A user-supplied done function (the documented extension point): the default rules plus a budget of moves."""
+    from jumanji.environments.logic.minesweeper.done import DefaultDoneFn
+
+    class BudgetDoneFn(DefaultDoneFn):
+        def __call__(self, state, next_state, action):
+            return super().__call__(state, next_state, action) | (next_state.step_count >= budget)
+
+    return BudgetDoneFn()
+
+
 def _injected_generator(cfg):
     """INJ: every running state of the TLC model with cfg["mines"] mines (every placement of the mines, every set of
     revealed safe squares short of the solved board) as a start state, handed out by a table-driven generator (state
@@ -79,6 +90,10 @@ class Adapter(EnvAdapter):
                 # the three values given as Python ints (whole numbers): the reward must still be a float32 scalar
                 c("r3c5m3_rwint", 3, 5, 3, rewards=(3, -2, -1), episodes=4, max_steps=16,
                   policies=["safe", "safe_then_mine", "safe_then_invalid", "masked"]),
+                # a user-supplied done function: the default rules plus a budget of 3 (5) moves
+                c("r5c5m3_budget3", 5, 5, 3, move_budget=3, episodes=6, max_steps=6, policies=["safe", "masked", "safe_then_mine", "safe"]),
+                c("r4c6m4_budget5_rw", 4, 6, 4, move_budget=5, rewards=(2.0, -1.0, -0.5), episodes=4, max_steps=8,
+                  policies=["safe", "safe_then_invalid", "masked"]),
             ] + [
                 # INJ: every running state of the 2x3 TLC model (all placements, all revealed sets), every click probed
                 c(f"inj2x3_m{m}", 2, 3, m, inject=("MC_Minesweeper", "MC_Minesweeper_quick_2x3.cfg"), episodes=0, max_steps=1,
@@ -112,6 +127,10 @@ class Adapter(EnvAdapter):
             c("r7c2m3", 7, 2, 3, episodes=20, max_steps=14, policies=mixed + ["safe_then_invalid"]),
             c("r12c20m30", 12, 20, 30, episodes=3, max_steps=215, probe_every=12, probe_cap=48,
               policies=["safe", "safe_then_invalid", "safe_then_mine"]),
+            c("r5c5m3_budget3", 5, 5, 3, move_budget=3, episodes=30, max_steps=6, policies=["safe", "masked", "safe_then_mine", "safe", "random"]),
+            c("r4c6m4_budget5_rw", 4, 6, 4, move_budget=5, rewards=(2.0, -1.0, -0.5), episodes=30, max_steps=8,
+              policies=["safe", "safe_then_invalid", "masked", "safe"]),
+            c("r6c6m6_budget1", 6, 6, 6, move_budget=1, episodes=20, max_steps=4, policies=["safe", "masked", "random"]),
         ] + [
             c(f"inj2x3_m{m}", 2, 3, m, inject=("MC_Minesweeper", "MC_Minesweeper_quick_2x3.cfg"), episodes=0, max_steps=2,
               post_terminal=0, policies=["masked"], props=INJ_PROPS) for m in (0, 1, 2, 3, 4, 5)
@@ -128,6 +147,8 @@ class Adapter(EnvAdapter):
         if cfg.get("default_ctor"):
             return Minesweeper()  # the documented defaults: 10x10, 10 mines, default reward and done functions
         kw = dict(generator=_injected_generator(cfg) if "inject" in cfg else UniformSamplingGenerator(**cfg["ctor"]))
+        if cfg.get("move_budget"):
+            kw["done_function"] = _budget_done_fn(cfg["move_budget"])
         if cfg.get("rewards"):
             rs, rm, ri = cfg["rewards"]
             kw["reward_function"] = DefaultRewardFn(
@@ -144,6 +165,7 @@ class Adapter(EnvAdapter):
     def cfg_record(self, cfg, env):
         rec = dict(cfg["ctor"])  # what the harness requested
         rs, rm, ri = cfg.get("rewards") or DEFAULT_REWARDS
+        rec["move_budget"] = cfg.get("move_budget", 0)
         rec["reward_q"] = {"safe": jsonify.fx(rs), "mine": jsonify.fx(rm), "invalid": jsonify.fx(ri)}
         return rec
 
